@@ -301,7 +301,7 @@ func TestLayers(t *testing.T) {
 	rapid.Check(t, func(rt *rapid.T) {
 		c := layerCase{Layer: rapid.SampledFrom([]string{"correlated", "extended", "additive"}).Draw(rt, "layer"),
 			ChoiceKind: rapid.SampledFrom([]string{"zeros", "ones", "alternating", "random"}).Draw(rt, "choices"),
-			Bytes:      rapid.SampledFrom([]int{1, 2, 4, 16, 33, 64}).Draw(rt, "bytes"),
+			Bytes:      rapid.IntRange(1, 70).Draw(rt, "bytes"),
 			Rnd:        conv.Hex(rapid.SliceOfN(rapid.Byte(), 32, 32).Draw(rt, "rnd")),
 			Seed:       rapid.Uint64Range(1, 1<<40).Draw(rt, "seed"),
 			Uses:       rapid.IntRange(1, 3).Draw(rt, "uses")}
@@ -318,6 +318,8 @@ type mulCase struct {
 	Seed  uint64
 	Uses  int
 	Alter Alter
+	// Interleave: all uses are opened first and answered in reverse order (honest uses only)
+	Interleave bool
 }
 
 func mulRun(c mulCase) *pbt.Fail {
@@ -330,6 +332,10 @@ func mulRun(c mulCase) *pbt.Fail {
 		return nil // the alteration was detected during setup
 	}
 	rnd := conv.UnHex(c.Rnd)
+	if c.Interleave && c.Alter.Stage == "" && c.Uses > 1 {
+		return mulInterleaved(c, ss, rs, rnd)
+	}
+	rejected := false
 	for use := 0; use < c.Uses; use++ {
 		a := scalarOf(c.A, rnd[:16])
 		b := scalarOf(c.B, rnd[16:])
@@ -342,7 +348,18 @@ func mulRun(c mulCase) *pbt.Fail {
 			return pbt.Failf("multiply-error", err.Error())
 		}
 		m1 := rcv.Round1()
+		// the alteration hits the FIRST use only: the uses after a rejected request are honest and must still work
+		// (the setup outlives a failed multiplication: it is part of the stored key material)
 		al := c.Alter
+		if use > 0 {
+			al = Alter{}
+		}
+		honestErr := func(err error) *pbt.Fail {
+			if rejected {
+				return pbt.Failf("multiply-error-after-rejected-request", fmt.Sprintf("honest use %d of the setup fails after an altered %s was rejected in use 0: %v", use, c.Alter.Stage, err))
+			}
+			return pbt.Failf("multiply-error", err.Error())
+		}
 		switch al.Stage {
 		case "ext-U":
 			u := m1.Msg.Msg.CorreMsg.U[al.Index%128]
@@ -357,9 +374,10 @@ func mulRun(c mulCase) *pbt.Fail {
 		m2, shareS, err := snd.Round1(m1)
 		if err != nil {
 			if al.Stage == "" {
-				return pbt.Failf("multiply-error", err.Error())
+				return honestErr(err)
 			}
-			return nil
+			rejected = true
+			continue
 		}
 		switch al.Stage {
 		case "add-pad":
@@ -377,9 +395,10 @@ func mulRun(c mulCase) *pbt.Fail {
 		shareR, err := rcv.Round2(m2)
 		if err != nil {
 			if al.Stage == "" {
-				return pbt.Failf("multiply-error", err.Error())
+				return honestErr(err)
 			}
-			return nil
+			rejected = true
+			continue
 		}
 		sum := new(big.Int).Add(conv.Big(shareS), conv.Big(shareR))
 		sum.Mod(sum, ref.N)
@@ -395,8 +414,54 @@ func mulRun(c mulCase) *pbt.Fail {
 	return nil
 }
 
+// mulInterleaved opens all multiplications on the setup first and lets the sender answer them in REVERSE order: uses
+// of one setup with distinct nonces are independent of each other.
+func mulInterleaved(c mulCase, ss *ot.CorreOTSendSetup, rs *ot.CorreOTReceiveSetup, rnd []byte) *pbt.Fail {
+	type sess struct {
+		a, b *big.Int
+		snd  *ot.MultiplySender
+		rcv  *ot.MultiplyReceiver
+		m1   *ot.MultiplyReceiveRound1Message
+		m2   *ot.MultiplySendRound1Message
+		sS   curve.Scalar
+	}
+	var all []*sess
+	for use := 0; use < c.Uses; use++ {
+		a := scalarOf(c.A, rnd[:16])
+		b := scalarOf(c.B, rnd[16:])
+		a.Add(a, big.NewInt(int64(use))).Mod(a, ref.N)
+		x := &sess{a: a, b: b, snd: ot.NewMultiplySender(ctxHash("mul", use), ss, conv.Scalar(a))}
+		var err error
+		if x.rcv, err = ot.NewMultiplyReceiver(ctxHash("mul", use), rs, conv.Scalar(b)); err != nil {
+			return pbt.Failf("multiply-error", err.Error())
+		}
+		x.m1 = x.rcv.Round1()
+		all = append(all, x)
+	}
+	for i := len(all) - 1; i >= 0; i-- {
+		var err error
+		if all[i].m2, all[i].sS, err = all[i].snd.Round1(all[i].m1); err != nil {
+			return pbt.Failf("multiply-error:interleaved", fmt.Sprintf("use %d answered out of order: %v", i, err))
+		}
+	}
+	for i, x := range all {
+		sR, err := x.rcv.Round2(x.m2)
+		if err != nil {
+			return pbt.Failf("multiply-error:interleaved", fmt.Sprintf("use %d answered out of order: %v", i, err))
+		}
+		sum := new(big.Int).Add(conv.Big(x.sS), conv.Big(sR))
+		sum.Mod(sum, ref.N)
+		prod := new(big.Int).Mul(x.a, x.b)
+		prod.Mod(prod, ref.N)
+		if sum.Cmp(prod) != 0 {
+			return pbt.Failf("multiply-wrong-product:interleaved", fmt.Sprintf("use %d answered out of order: shares add up to %x, a*b = %x", i, sum, prod))
+		}
+	}
+	return nil
+}
+
 var mulProp = pbt.Define(pbt.Prop[mulCase]{Kind: "ot-multiply", Run: mulRun, Class: func(c mulCase) (string, bool) {
-	return fmt.Sprintf("multiply|a=%s|b=%s|uses=%d|alter=%s", c.A, c.B, c.Uses, c.Alter.Stage), c.A != "rand" || c.B != "rand" || c.Uses > 1 || c.Alter.Stage != ""
+	return fmt.Sprintf("multiply|a=%s|b=%s|uses=%d|alter=%s|interleave=%v", c.A, c.B, c.Uses, c.Alter.Stage, c.Interleave && c.Alter.Stage == "" && c.Uses > 1), c.A != "rand" || c.B != "rand" || c.Uses > 1 || c.Alter.Stage != ""
 }})
 
 var alterStages = []string{"", "", "", "setup-B", "setup-proof", "setup-A", "setup-challenge", "setup-response", "setup-decommit", "ext-U", "ext-X", "ext-T", "add-pad", "mul-rcheck", "mul-ucheck"}
@@ -407,6 +472,7 @@ func TestMultiply(t *testing.T) {
 			Rnd:  conv.Hex(rapid.SliceOfN(rapid.Byte(), 32, 32).Draw(rt, "rnd")),
 			Seed: rapid.Uint64Range(1, 1<<40).Draw(rt, "seed"), Uses: rapid.IntRange(1, 3).Draw(rt, "uses")}
 		c.Alter = Alter{Stage: rapid.SampledFrom(alterStages).Draw(rt, "stage"), Index: rapid.IntRange(0, 1023).Draw(rt, "index"), Bit: rapid.IntRange(0, 255).Draw(rt, "bit")}
+		c.Interleave = rapid.Bool().Draw(rt, "interleave")
 		if c.Alter.Stage != "" {
 			c.Uses = 1
 		}
